@@ -6,12 +6,7 @@ From MJV Require Import Model.Schema Model.SchemaSpec Gen.Schema Proof.SchemaPro
 Import ListNotations.
 Open Scope string_scope.
 
-(* the meaning of the schema: every element validated by a row (by name or as an alias tag of the
-   body row: worldbody, frame, replicate) satisfies it *)
-Definition ConformsFull : schema -> dom -> Prop := ConformsDoc true.
-(* the weaker meaning: the same, except that children of an 'R' row carrying an alias tag (frame,
-   replicate) are left unconstrained, together with everything below them *)
-Definition ConformsOutsideAliases : schema -> dom -> Prop := ConformsDoc false.
+(* ConformsFull / ConformsOutsideAliases: Model/SchemaSpec.v *)
 
 (* For EVERY table and EVERY document: the matcher in which the recursion loop follows NameMatch
    accepts exactly the documents that conform. *)
@@ -32,12 +27,7 @@ Print Assumptions C37_check_iff_conforms_outside_aliases.
    ("documents that conform are not rejected for schema reasons"). *)
 Theorem C37_conforming_not_rejected :
   forall (bnm : bool) (tbl : schema) (doc : dom), ConformsFull tbl doc -> check_doc bnm tbl doc = None.
-Proof.
-  intros bnm tbl doc H. destruct bnm.
-  - apply (check_doc_iff true). exact H.
-  - destruct (check_doc false tbl doc) eqn:E; [| reflexivity].
-    exfalso. exact (exact_name_never_rejects_conforming tbl doc e E H).
-Qed.
+Proof. exact conforming_not_rejected. Qed.
 Print Assumptions C37_conforming_not_rejected.
 
 (* The exact-name variant does NOT reject every violator: the full iff fails for it, witnessed by two
@@ -115,3 +105,13 @@ Example C37_ex_lex :
   map_value ["false"; "true"] "true" = KeyOk [1%nat] /\ map_value ["false"; "true"] " true" = KeyInvalid /\
   map_values ["a"; "b"; "c"] "c a" = KeyOk [2%nat; 0%nat] /\ map_values ["a"; "b"; "c"] "c c" = KeyDup.
 Proof. vm_compute. repeat split; reflexivity. Qed.
+
+(* the refutation on the regenerated table itself: the two-inertial document of finding C37-F1 *)
+Example C37_ex_alias_subtree_on_real_table :
+  let doc := Elem "mujoco" [] 1 [Elem "worldbody" [] 2 [Elem "body" [] 3 [Elem "frame" [] 4
+               [Elem "inertial" ["mass"; "pos"; "diaginertia"] 5 []; Elem "inertial" ["mass"; "pos"; "diaginertia"] 6 []; Elem "geom" ["size"] 7 []]]]] in
+  check_doc false mjcf_schema doc = None /\ ~ ConformsFull mjcf_schema doc.
+Proof.
+  split; [vm_compute; reflexivity |].
+  intros H. apply C37_check_iff_conforms in H. vm_compute in H. discriminate.
+Qed.
